@@ -349,23 +349,32 @@ func (c *Ctx) c17Others() {
 		fk := c.P.FuncKey(f)
 		o := c.P.OriginsOf(f)
 		var post ssa.CallInstruction
-		for _, ci := range Calls(f) {
-			if c.P.Describe(ci).Name == "wallet/client.PostSwap" {
-				post = ci
+		for _, g := range c.OpFuncs(f) {
+			for _, ci := range Calls(g) {
+				if c.P.Describe(ci).Name == "wallet/client.PostSwap" {
+					post = ci
+				}
 			}
 		}
-		if post != nil {
+		viaNew := func(g *ssa.Function) bool { return c.P.IsNewFunc(g) }
+		if post == nil {
+			R.Unresolved("R2", "swap request in "+fk, "no PostSwap call")
+		} else {
+			swapOK := errNilOf(post, "swap succeeded")
+			swapOK.Via = viaNew
 			for _, cc := range c.opCallsOfWalletDB(f, "DeleteProof") {
 				dp := cc.CI
-				ok, why := c.RequireAt(dp, errNilOf(post, "swap succeeded"))
+				ok, why := c.RequireAt(dp, swapOK)
 				R.Check("R2", fk, "inputs deleted <= swap succeeded", c.P.InstrPos(dp), ok, "the swapped inputs leave the spendable bucket only after the mint accepted the swap", why)
 			}
 			c.ruleSwapInputsRemovedFirst("R2")
-			saves := c.callsOfWalletDB(f, "SaveProofs")
+			saves := c.opCallsOfWalletDB(f, "SaveProofs")
 			for _, r := range o.SuccessReturns() {
 				ok, why := false, "no save of the change"
 				for _, s := range saves {
-					ok, why = o.Requires(r, errNilOf(s, "change saved"))
+					saved := errNilOf(s.CI, "change saved")
+					saved.Via = viaNew
+					ok, why = o.Requires(r, saved)
 				}
 				R.Check("R2", fk, "success <= change proofs saved", c.P.InstrPos(r), ok, "the proofs not handed out are saved before success", why)
 			}
@@ -645,12 +654,19 @@ func rulesC18(c *Ctx) {
 		o := c.P.OriginsOf(f)
 		// matching loop: a store into proofsToSend[i] followed by removal of that candidate before the next match
 		var store *ssa.Store
-		for _, b := range f.Blocks {
-			for _, in := range b.Instrs {
-				if st, ok := in.(*ssa.Store); ok {
-					if ia, ok := st.Addr.(*ssa.IndexAddr); ok {
-						if l := o.Loops.byIndex[ia.Index]; l != nil && strings.Contains(o.Of(l.RangeOf).String(), "createBlindedMessages") || (l != nil && strings.Contains(o.Of(l.RangeOf).String(), "blindedMessagesFromSpendingCondition")) {
-							store = st
+		of := o // the context of the operation itself (fee budget, returns)
+		for _, og := range c.OpContexts(f) {
+			if og.Fn.Parent() != nil {
+				continue
+			}
+			for _, b := range og.Fn.Blocks {
+				for _, in := range b.Instrs {
+					if st, ok := in.(*ssa.Store); ok {
+						if ia, ok := st.Addr.(*ssa.IndexAddr); ok {
+							if l := og.Loops.byIndex[ia.Index]; l != nil && strings.Contains(og.Of(l.RangeOf).String(), "createBlindedMessages") || (l != nil && strings.Contains(og.Of(l.RangeOf).String(), "blindedMessagesFromSpendingCondition")) {
+								store = st
+								o = og // the matching is read in the function that holds it (a helper new on this tree: entered from its call site)
+							}
 						}
 					}
 				}
@@ -661,6 +677,7 @@ func rulesC18(c *Ctx) {
 		} else {
 			// the matched branch leaves the candidate loop (break), so the store sits in the loop over the send outputs
 			outer := o.Loops.InnermostContaining(store.Block())
+			var searchCall *ssa.Call
 			okDel := false
 			why := "no removal of the matched candidate"
 			if outer != nil {
@@ -674,6 +691,16 @@ func rulesC18(c *Ctx) {
 								// and the matched proof is the element at that index
 								if strings.HasPrefix(o.Of(store.Val).String(), "elem(") {
 									cut.Barriers[call] = true
+								}
+							}
+							// search form: j := slices.IndexFunc(candidates, pred); out[i] = candidates[j]; Delete(candidates, j, j+1)
+							if sc, ok := UnwrapConv(d.Args[1]).(*ssa.Call); ok && c.P.Describe(sc).Name == "slices.IndexFunc" && o.sameValue(c.P.Describe(sc).Args[0], d.Args[0]) &&
+								isPlusOne(o, d.Args[2], d.Args[1]) {
+								if ld, ok := store.Val.(*ssa.UnOp); ok {
+									if ia, ok := ld.X.(*ssa.IndexAddr); ok && ia.Index == d.Args[1] && o.sameValue(ia.X, d.Args[0]) {
+										cut.Barriers[call] = true
+										searchCall = sc
+									}
 								}
 							}
 						}
@@ -711,6 +738,7 @@ func rulesC18(c *Ctx) {
 			R.Check("R2", fk, "matched proof removed from the candidates before the next match", c.P.InstrPos(store), okDel, "the returned proofs are pairwise distinct: a matched proof cannot be matched again", why)
 			// matched by amount
 			okAmt := false
+			whyAmt := ""
 			for _, e := range o.AllEdges() {
 				ft := o.EdgeFact(e)
 				if ft != nil && ft.Kind == "cmp" && ft.Pos && ft.Op.String() == "==" && strings.HasSuffix(ft.A.String(), ".Amount") && strings.HasSuffix(ft.B.String(), ".Amount") {
@@ -719,9 +747,36 @@ func rulesC18(c *Ctx) {
 					}
 				}
 			}
-			R.Check("R2", fk, "match is by equal amount", c.P.InstrPos(store), okAmt, "a send output is matched with a proof of the same amount", "")
+			if searchCall != nil {
+				// the predicate of the search compares the amounts
+				var pred *ssa.Function
+				switch v := searchCall.Call.Args[1].(type) {
+				case *ssa.MakeClosure:
+					pred, _ = v.Fn.(*ssa.Function)
+				case *ssa.Function:
+					pred = v
+				}
+				if pred != nil {
+					ao := o.EnterClosure(pred)
+					okAmt = len(Returns(pred)) > 0
+					for _, r := range Returns(pred) {
+						pe := ao.Of(r.Results[0])
+						whyAmt = "search predicate returns " + short(pe.String(), 160)
+						isAmt := func(e *Ex) bool {
+							t := strings.TrimSuffix(e.String(), ")")
+							return strings.HasSuffix(t, ".Amount")
+						}
+						if !(pe.S == "==" && len(pe.Args) == 2 && isAmt(pe.Args[0]) && isAmt(pe.Args[1]) &&
+							(strings.HasPrefix(pe.Args[0].String(), "P:") != strings.HasPrefix(pe.Args[1].String(), "P:"))) {
+							okAmt = false
+						}
+					}
+				}
+			}
+			R.Check("R2", fk, "match is by equal amount", c.P.InstrPos(store), okAmt, "a send output is matched with a proof of the same amount", whyAmt)
 		}
 		// fee budget from the synchronised active keyset
+		o = of
 		for _, ci := range Calls(f) {
 			d := c.P.Describe(ci)
 			if d.Name == "wallet.feesForCount" {
@@ -1167,40 +1222,62 @@ func (c *Ctx) ruleSwapInputsRemovedFirst(rule string) {
 		return
 	}
 	fk := c.P.FuncKey(f)
-	o := c.P.OriginsOf(f)
 	var post ssa.CallInstruction
-	for _, ci := range Calls(f) {
-		if c.P.Describe(ci).Name == "wallet/client.PostSwap" {
-			post = ci
+	for _, g := range c.OpFuncs(f) {
+		for _, ci := range Calls(g) {
+			if c.P.Describe(ci).Name == "wallet/client.PostSwap" {
+				post = ci
+			}
 		}
 	}
 	if post == nil {
 		R.Unresolved(rule, "swap request in "+fk, "no PostSwap call")
 		return
 	}
-	cutD := NewCut()
-	nb := 0
-	for _, cc := range c.opCallsOfWalletDB(f, "DeleteProof") {
-		in := c.siteIn(f, cc.CI)
-		if in == nil {
-			continue
+	dels := c.opCallsOfWalletDB(f, "DeleteProof")
+	okD, whyD := len(dels) > 0, "no removal of the inputs found"
+	// walk: from the edges on which the swap is known accepted, no return may be reached before the removal;
+	// in a helper that is new on this tree a success return hands the obligation to its (single) call site
+	var walk func(g *ssa.Function, from map[Edge]bool, depth int)
+	walk = func(g *ssa.Function, from map[Edge]bool, depth int) {
+		o := c.P.OriginsOf(g)
+		cutD := NewCut()
+		for _, cc := range dels {
+			in := c.siteIn(g, cc.CI)
+			if in == nil {
+				continue
+			}
+			if l := o.Loops.InnermostContaining(in.Block()); l != nil && len(l.Header.Instrs) > 0 {
+				cutD.Barriers[l.Header.Instrs[0]] = true
+			} else {
+				cutD.Barriers[in] = true
+			}
 		}
-		if l := o.Loops.InnermostContaining(in.Block()); l != nil && len(l.Header.Instrs) > 0 {
-			cutD.Barriers[l.Header.Instrs[0]] = true
-		} else {
-			cutD.Barriers[in] = true
-		}
-		nb++
-	}
-	okD, whyD := nb > 0, "no removal of the inputs found"
-	for e := range o.AcceptEdges(errNilOf(post, "swap succeeded")) {
-		for _, r := range Returns(f) {
-			if reach, path := Reach(Point{e.To(), 0}, PointOf(r), cutD); reach {
+		for e := range from {
+			for _, r := range Returns(g) {
+				reach, path := Reach(Point{e.To(), 0}, PointOf(r), cutD)
+				if !reach {
+					continue
+				}
+				if g != f && depth < 3 && !o.IsFailureReturn(r) {
+					if sites := c.sitesInScope(c.callersOf(g)); len(sites) == 1 {
+						call := sites[0]
+						caller := call.Parent()
+						walk(caller, c.P.OriginsOf(caller).AcceptEdges(errNilOf(call, "helper succeeded")), depth+1)
+						continue
+					}
+				}
 				okD = false
 				whyD = "return at " + c.P.InstrPos(r) + " reachable after the accepted swap with the spent inputs still in the spendable bucket: " + c.P.PathString(path)
 			}
 		}
 	}
+	g := post.Parent()
+	from := c.P.OriginsOf(g).AcceptEdges(errNilOf(post, "swap succeeded"))
+	if len(from) == 0 {
+		okD, whyD = false, "the result of the swap request is not tested"
+	}
+	walk(g, from, 0)
 	R.Check(rule, fk, "swap accepted => inputs removed before anything can fail", c.P.InstrPos(post), okD,
 		"after the mint accepted the swap the inputs leave the spendable bucket before any fallible step", whyD)
 }
